@@ -94,10 +94,13 @@ type Case struct {
 	GRPC bool `json:"grpc,omitempty"`
 	// while the tenure runs, contender 2 calls LockWithCtx once and its Create request fails with a transient error
 	// (it never reaches the store): the attempt returns the error, and the holder's record is none of its business
-	ContFault bool   `json:"cont_fault,omitempty"`
-	Pre       string `json:"pre,omitempty"`
-	PreK      int    `json:"pre_k,omitempty"`
-	Jit       uint64 `json:"jit"`
+	ContFault bool `json:"cont_fault,omitempty"`
+	// the Delete of the holder's Unlock fails with a transient error (the request is lost): Unlock returns all the same,
+	// and the renewal of the finished tenure must have been cancelled (the record then runs out by itself)
+	DelFault bool   `json:"del_fault,omitempty"`
+	Pre      string `json:"pre,omitempty"`
+	PreK     int    `json:"pre_k,omitempty"`
+	Jit      uint64 `json:"jit"`
 }
 
 type outcome struct {
@@ -502,6 +505,11 @@ func runScenario(cs Case) (o *outcome) {
 	case "unlock":
 		sleepUntil(endAt)
 		c.mark(kUnlock)
+		if cs.DelFault {
+			c.mu.Lock()
+			c.delFault = true
+			c.mu.Unlock()
+		}
 		holder.Unlock()
 		time.Sleep(3*ttl + ttl/4)
 	case "race_before", "race_after":
@@ -1097,6 +1105,8 @@ func generate(seed uint64, thorough bool) []Case {
 					add(Case{TTLms: ttl, Acq: acq(), End: x.pos, EndK: x.k, GRPC: true})
 				}
 			}
+			// the Delete of Unlock is lost
+			add(Case{TTLms: ttl, Acq: acq(), End: "unlock", HoldU: r.Range(30, 60), DelFault: true})
 			// a contender's acquisition attempt fails with a transient error while the tenure runs
 			add(Case{TTLms: ttl, Acq: acq(), End: "unlock", HoldU: r.Range(60, 84), ContFault: true})
 			// (xi) the acquisition had to wait 0.6 .. 1.7 lease periods inside Lock for another Locker
